@@ -71,6 +71,14 @@ fn main() {
             cfg.enc = 2; cfg.cs = 0; cfg.comp = None; cfg.reader_source = ci % 2 == 1; cfg.pchunk = None; cfg.armor = false; cfg.text = false;
             cfg.signers = sets[ci].to_vec(); cfg.sym = SymmetricKeyAlgorithm::AES128; cfg.aead = AeadAlgorithm::Ocb;
         }
+        // three more directed configurations: a compressed packet in 512-octet partial chunks over incompressible payloads of
+        // EVERY length in a range more than one chunk wide, so that the compressed stream fills its last chunk exactly (a
+        // zero-length final part) for some of them, whatever the compressor's overhead is
+        let fill = (10..13).contains(&ci);
+        if fill {
+            cfg.enc = if ci == 12 { 1 } else { 0 }; cfg.comp = Some([CompressionAlgorithm::BZip2, CompressionAlgorithm::ZLIB, CompressionAlgorithm::BZip2][ci - 10]); cfg.reader_source = ci % 2 == 1;
+            cfg.pchunk = Some(512); cfg.armor = false; cfg.text = false; cfg.mode = b'b'; cfg.signers = vec![]; cfg.npw = 1; cfg.keys = vec![]; cfg.name = String::new();
+        }
         // sizes on and next to every boundary this configuration has
         // the builder leaves the file name field of the literal packet empty whatever name it was given (see the known finding)
         let hl = 6usize;
@@ -84,10 +92,11 @@ fn main() {
         for d in 0..=40i64 { if (d + ci as i64) % 2 == 0 && (thorough || ci % 3 == 0) { sizes.push(8192 - d); sizes.push(16384 - d); } }
         for _ in 0..2 { sizes.push(r.below(3000) as i64); }
         if directed { sizes = vec![0, 1, 100, 185, 186, 187, 200, 8377, 8378, 8379, 9000]; }
+        if fill { sizes = (300..=(if ci == 11 { 460 } else { 830 })).collect(); }
         sizes.retain(|s| *s >= 0 && *s <= if thorough { 2_200_000 } else { 70_000 });
         sizes.sort(); sizes.dedup();
         // keep the run bounded: all sizes in thorough, a rotating third in quick
-        let sizes: Vec<i64> = if thorough || directed { sizes } else { sizes.iter().enumerate().filter(|(i, _)| (i + ci) % 3 == 0).map(|(_, s)| *s).collect() };
+        let sizes: Vec<i64> = if thorough || directed || fill { sizes } else { sizes.iter().enumerate().filter(|(i, _)| (i + ci) % 3 == 0).map(|(_, s)| *s).collect() };
         for n in sizes {
             let n = n as usize;
             let payload: Vec<u8> = if cfg.text || cfg.mode == b'u' { let mut v = Vec::with_capacity(n); while v.len() < n { v.extend_from_slice(*cx.rng.pick(&[&b"line of text\r\n"[..], b"x\n", b"\r", b"caf\xc3\xa9 ", b"0123456789"])); } v.truncate(n); while std::str::from_utf8(&v).is_err() && !v.is_empty() { v.pop(); } v } else { cx.rng.bytes(n) };
